@@ -92,7 +92,7 @@ def _pl_size(ck, P, cfg):
     if len(allocs) != 1:
         ck.inconclusive("C11.4", inst, h.where, "event receive allocation not recognised", cfg)
         return
-    lf = linear(X.callee_args(allocs[0])[0])
+    lf = linear(Q.resolve_local(h, X.callee_args(allocs[0])[0]))
     if lf is None or len(lf[0]) != 1 or list(lf[0].values()) != [1]:
         ck.inconclusive("C11.4", inst, allocs[0].where, "allocation size is not `received size + constant`", cfg)
         return
@@ -106,7 +106,7 @@ def _pl_size(ck, P, cfg):
     # and the sender's size macro is the same arithmetic
     s = P.fn("mpi_remote_msg_send")
     for c in s.calls("MPI_Isend"):
-        sf = linear(X.callee_args(c)[1])
+        sf = linear(Q.resolve_local(s, X.callee_args(c)[1]))
         if sf is not None and sf[1] == off_pl - off_dest and any(k.endswith("pl_size") for k in sf[0]):
             ck.holds("C11.4", "send-size@mpi_remote_msg_send", c.where, "sends offsetof(pl) - preamble + pl_size = %d + pl_size bytes" % sf[1], cfg)
         elif sf is not None:
